@@ -923,9 +923,13 @@ def get_length_scale(
         # get the axes along which droplets can be placed
         grid = scalar_field.grid
         axes = set(range(grid.dim)) - set(grid.coordinate_constraints)
+        # unconstrained Cartesian axes correspond to the last axes of the grid, e.g., the
+        # z-axis of a cylindrical grid is its second axis
+        offset = grid.dim - grid.num_axes
         volume = 1.0
         for ax in axes:
-            volume *= grid.axes_bounds[ax][1] - grid.axes_bounds[ax][0]
+            bounds = grid.axes_bounds[ax - offset]
+            volume *= bounds[1] - bounds[0]
 
         volume_per_droplet = volume / len(droplets)
         length_scale = volume_per_droplet ** (1 / len(axes))
